@@ -106,7 +106,6 @@ fn c03_rotate(n: usize) -> u8 {
 }
 // HARNESS props=C03,C09 tier=quick profile=gw_rot1 shape="candidate N=1; epoch, delay, times full u64; duplicate/witness entries symbolic"
 #[kani::proof]
-#[kani::unwind(114)]
 fn c03_rotate_n1() {
     let o = c03_rotate(1);
     kani::cover!(o == 1, "VERIF:reach:set installed");
@@ -114,7 +113,6 @@ fn c03_rotate_n1() {
 }
 // HARNESS props=C03,C09 tier=quick profile=gw_rot2 shape="candidate N=2"
 #[kani::proof]
-#[kani::unwind(166)]
 fn c03_rotate_n2() {
     let o = c03_rotate(2);
     kani::cover!(o == 1, "VERIF:reach:set installed");
@@ -122,7 +120,6 @@ fn c03_rotate_n2() {
 }
 // HARNESS props=C03 tier=quick profile=gw_rot1 shape="empty candidate"
 #[kani::proof]
-#[kani::unwind(114)]
 fn c03_rotate_n0() {
     let o = c03_rotate(0);
     kani::cover!(o == 0, "VERIF:reach:empty set refused");
@@ -176,7 +173,6 @@ fn c03_init(ni: usize) -> u8 {
 }
 // HARNESS props=C03,C09,C08 tier=quick profile=gw_init shape="constructor with 1 initial set (N=1)"
 #[kani::proof]
-#[kani::unwind(114)]
 fn c03_init_1() {
     let o = c03_init(1);
     kani::cover!(o == 1, "VERIF:reach:constructed");
@@ -184,7 +180,6 @@ fn c03_init_1() {
 }
 // HARNESS props=C03,C08 tier=quick profile=gw_init shape="constructor with 2 initial sets (N=1 each), possibly equal"
 #[kani::proof]
-#[kani::unwind(114)]
 fn c03_init_2() {
     let o = c03_init(2);
     kani::cover!(o == 1, "VERIF:reach:constructed");
@@ -192,7 +187,6 @@ fn c03_init_2() {
 }
 // HARNESS props=C03 tier=quick profile=gw_init shape="constructor with no initial set"
 #[kani::proof]
-#[kani::unwind(114)]
 fn c03_init_0() {
     let o = c03_init(0);
     kani::cover!(o == 0, "VERIF:reach:construction failed");
@@ -200,7 +194,6 @@ fn c03_init_0() {
 
 // HARNESS props=C03,C09 tier=thorough profile=gw_rot3 shape="candidate N=3"
 #[kani::proof]
-#[kani::unwind(220)]
 fn c03_rotate_n3() {
     let o = c03_rotate(3);
     kani::cover!(o == 1, "VERIF:reach:set installed");
